@@ -105,7 +105,36 @@ def run(tier, seed):
             r = complex(r)
         if not abs(v - r) <= 1e-14 * abs(r):
             bad.append(dict(z=[z.real, z.imag], impl=[v.real, v.imag], exact=[r.real, r.imag], clause="complex accuracy"))
-    res.extra["oracle_checks"] = len(xs) * 2 + len(pos) + len(zs)
+    # ---- integer- and bool-typed real arguments (python int, every numpy integer width, integer arrays)
+    nint = 0
+    for ty in (int, np.int8, np.int16, np.int32, np.int64, np.uint8, np.uint16, np.uint32, np.uint64, bool):
+        for xi in ([0, 1] if ty is bool else [0, 1, 2, 3, 7, 30, 100]):
+            for how in ("scalar", "array"):
+                arg = ty(xi) if how == "scalar" else np.array([0, xi, 1], dtype=(np.bool_ if ty is bool else ty if ty is not int else np.int64))
+                try:
+                    v = float(np.asarray(poisson_prob_scale(arg)).reshape(-1)[0 if how == "scalar" else 1])
+                except Exception as ex:
+                    v = float("nan")
+                r = ref_real(float(xi)); nint += 1
+                res.count("integer-typed/" + ty.__name__)
+                if not (abs(v - r) <= 6 * np.spacing(abs(r))) or not (0.0 < v <= 1.0):
+                    bad.append(dict(x=xi, type=ty.__name__, form=how, impl=v, exact=r, clause="accuracy for integer-typed real arguments (%s(%d), %s: got %r want %r)" % (ty.__name__, xi, how, v, r)))
+    # ---- the callers: total Poisson hop probability of TrajectorySH.hopper is 1 - exp(-G) with unchanged ratios (any number of open channels)
+    import mudslide
+    from stubs import StubModel
+    for it in range(60 if tier == "quick" else 1500):
+        n = rng.choice([2, 3, 4, 8]); k = rng.randrange(n)
+        g = np.array([10 ** rng.uniform(-14, 0.3) if rng.random() < 0.7 else 0.0 for _ in range(n)]); g[k] = 0.0
+        if rng.random() < 0.3: g *= 10 ** rng.uniform(-12, -6)
+        G = float(np.sum(g))
+        if G == 0.0: continue
+        tr = mudslide.TrajectorySH(StubModel([1.0], n), [0.0], [1.0], k, dt=1.0, zeta_list=[2.0], hopping_probability="poisson", seed_sequence=1)
+        tr.hopper(g.copy())
+        tot = float(tr.hopping); want = -math.expm1(-G)
+        res.count("caller/poisson-hopper/open-channels=%d" % int(np.count_nonzero(g)))
+        if abs(tot - want) > 16 * np.spacing(want):
+            bad.append(dict(rates=g.tolist(), impl_total=tot, exact=want, clause="Poisson hop probabilities (TrajectorySH.hopper) total 1-exp(-G): scale (1-exp(-G))/G applied to the rates (got %r want %r, G=%r)" % (tot, want, G)))
+    res.extra["oracle_checks"] = len(xs) * 2 + len(pos) + len(zs) + nint
     if failing or bad:
         fi = [dict(kind=meta[i][0], arg=meta[i][1], impl=meta[i][2]) for i in failing[:10]]
         if bad:
@@ -118,6 +147,6 @@ def run(tier, seed):
                                failing_inputs=fi, no_failing_input_found=True))
     return finish(res, thm,
                   rule="real x: log-uniform |x| in [1e-300,600] both signs, the 300 (quick)/2000 (thorough) doubles each side of the 1e-3 switch, specials; "
-                       "complex z: imaginary axis (what A-FSSH passes), real axis, random phase, |z| log-uniform 1e-12..20; every x evaluated as scalar and inside a mixed array; "
+                       "complex z: imaginary axis (what A-FSSH passes), real axis, random phase, |z| log-uniform 1e-12..20; every x evaluated as scalar and inside a mixed array; integer- and bool-typed arguments of every numpy width (scalar and array); the Poisson branch of TrajectorySH.hopper with 1..7 open channels and totals 1e-20..2; "
                        "non-trivial = distinct (argument, calling form)",
                   assumptions=["FloatFun expm1/sin/cos within 1 ulp of libm (measured)", "tolerance 2e-15 relative (real), 2e-15*|pps| (complex components)"])
